@@ -211,6 +211,7 @@ def _c16_stats(lines, sessions, R, M):
                     "counted separately"}
 
 PROPS["C16"] = {
+    "shrink_keep": ("FS ", "OUT "),   # the file tree of the session is not shrunk away
     "technique": "Lean 4 theorems over a model of static.go's decision logic and of path.Clean/http.Dir's lexical name mapping "
                  "(all byte-string paths, all options, all file systems) + differential correspondence with the real middleware "
                  "on a real temporary directory tree",
